@@ -2,7 +2,7 @@
    Model: Model/Threaded.v - one iteration of GeckoUdpSocket._thread_func as a function of (state, now, datagram),
    handlers abstract (accepts / effect of handle()).  All theorems hold for EVERY schedule of iterations. *)
 From Coq Require Import ZArith List Bool.
-Require Import GV.Model.Threaded GV.Proofs.ThreadedP.
+Require Import GV.Model.Threaded GV.Model.ThreadedChk GV.Proofs.ThreadedP.
 Import ListNotations.
 Open Scope Z_scope.
 
@@ -68,3 +68,17 @@ Theorem c20_exactly_n_retransmissions_refuted :
   let e := run unit (fun _ _ => false) (fun _ _ => Keep) e0 (map (fun k => (150 + 51 * Z.of_nat k, None)) (seq 0 14)) in
   ~ In 7%nat (map hid (hs e)) /\ count 7 (map snd (sent e)) = 2%nat /\ count 7 (enq e) = 3%nat.
 Proof. vm_compute. repeat split; try reflexivity. intros [H|[]]; discriminate. Qed.
+
+(* K9 (known finding): 'removed without further transmission once answered' is false of the engine when a retry of the request
+   was already waiting in the paced send queue (behind another request's datagram) at the moment the answer arrived: the request
+   is removed from the handlers, but the queued retry still goes on the wire.
+   Witness (found by the correspondence run on the real engine): requests 1 and 2 (timeout 100 ms) queued together at 1638;
+   1 is transmitted at 2688, times out and queues a retry behind 2's first transmission; the answer for 1 arrives in the
+   iteration at 3123 - and 1 is transmitted again at 3549. *)
+Theorem c20_no_transmission_after_answer_refuted :
+  let t := [(1%nat, 68, Remove)] in
+  let ops := [OAdd 1 1638 100 5; OSend 1; OAdd 2 1638 100 4; OSend 2; OIter 2688 None; OIter 2703 None; OIter 3123 (Some 68)] in
+  let e1 := fold_left (apply_op t) ops (mkE [] [] (-1000000) [] []) in
+  let e2 := fold_left (apply_op t) [OIter 3129 None; OIter 3549 None] e1 in
+  ~ In 1%nat (map hid (hs e1)) /\ In (3549, 1%nat) (sent e2).
+Proof. vm_compute. split; [intros [H|[]]; discriminate|]. repeat (first [left; reflexivity | right]). Qed.
